@@ -9,6 +9,7 @@ mod c04;
 mod c05;
 mod c06;
 mod c10;
+mod c12;
 mod coin;
 mod c13;
 mod c14;
@@ -43,6 +44,7 @@ fn main() {
         "C15" => c05::spec_c15(),
         "C19" => c19::spec(),
         "C10" => c10::spec(),
+        "C12" => c12::spec(),
         "C13" => c13::spec(),
         "C14" => c14::spec(),
         _ => {
